@@ -66,11 +66,15 @@ def carriers(R, rng, tier):
                      {"try_except_pass": {"check_typed_exception": True}},
                      {"assert_used": {"skips": ["*prog.py"]}}]
     n = 30 if tier == "quick" else 400
-    for it in range(n):
+    # ids this release does not know (a typo, an id of a newer release), alone and next to known ones, on either side
+    directed = [(["B1O1"], []), (["B999"], []), (["B999", "B101"], []), ([], ["B999"]), (["B101"], ["B1O1"]), (["B999"], ["B101"]), (["b101"], [])]
+    for it in range(n + len(directed)):
         tests = rng.sample(ids, rng.randint(0, 4))
         skips = [x for x in rng.sample(ids, rng.randint(0, 3)) if x not in tests and not (x == "B001" and any(t.startswith(("B3", "B4")) for t in tests))]
         if "B001" in tests and any(s.startswith(("B3", "B4")) for s in skips):
             skips = [s for s in skips if not s.startswith(("B3", "B4"))]
+        if it >= n:
+            tests, skips = directed[it - n]
         settings = rng.choice(settings_pool)
         doc = {}
         if tests:
